@@ -2,6 +2,8 @@ package main
 
 import (
 	"fmt"
+	"go/token"
+	"go/types"
 
 	"golang.org/x/tools/go/ssa"
 )
@@ -86,7 +88,7 @@ func (e *Engine) visitsEveryElement(in ssa.Instruction, allow func(ex loopExit) 
 		}
 		n++
 		for _, ex := range loopExits(body) {
-			if isProgressCond(ex.cond) {
+			if isProgressCond(ex.cond) || e.cursorProgress(ex.cond) {
 				continue
 			}
 			if onlyErrorReturnsFrom(ex.to) {
@@ -104,4 +106,211 @@ func (e *Engine) visitsEveryElement(in ssa.Instruction, allow func(ex loopExit) 
 		}
 	}
 	return n, ""
+}
+
+// cursorStep: g is the step function of a cursor over a list – a method on a local record R with fields (list, size,
+// pos, …) that
+//   - reports exhaustion (second result false) only where pos >= size is known,
+//   - otherwise reads the element for the CURRENT pos, advances pos by exactly one and reports true,
+//
+// while, over the whole package, pos is written by nothing but that increment (it starts at the zero value) and size by
+// nothing but len(list) of the list stored next to it. A loop driven by `x, more := c.step(); more; x, more = c.step()`
+// then visits positions 0 … len(list)-1 once each. Returns the call inside g that reads the element (the position step).
+func (e *Engine) cursorStep(g *ssa.Function) (ssa.Instruction, bool) {
+	if g == nil || g.Blocks == nil || g.Signature.Recv() == nil || g.Signature.Results().Len() != 2 || len(g.Params) != 1 {
+		return nil, false
+	}
+	if !isBoolType(g.Signature.Results().At(1).Type()) {
+		return nil, false
+	}
+	rt := namedOf(g.Signature.Recv().Type())
+	if rt == nil || !e.localRecord(rt) {
+		return nil, false
+	}
+	recv := g.Params[0]
+	fieldIdx := func(v ssa.Value) int {
+		v = strip(v)
+		for {
+			if cv, ok := v.(*ssa.Convert); ok && isIntType(cv.Type()) && isIntType(cv.X.Type()) {
+				v = cv.X
+				continue
+			}
+			break
+		}
+		u, ok := v.(*ssa.UnOp)
+		if !ok || u.Op != token.MUL {
+			return -1
+		}
+		fa, ok := u.X.(*ssa.FieldAddr)
+		if !ok || fa.X != ssa.Value(recv) {
+			return -1
+		}
+		return fa.Field
+	}
+	// the exhaustion test and which fields it compares
+	pos, size := -1, -1
+	okShape := true
+	for _, r := range returnsOf(g) {
+		more, isC := constBool(retVals(r)[1])
+		if !isC {
+			return nil, false
+		}
+		exhausted := false
+		for _, cd := range condsAt(r.Block()) {
+			cd = normCond(cd)
+			b, ok := cd.V.(*ssa.BinOp)
+			if !ok {
+				continue
+			}
+			op := b.Op
+			if !cd.Val {
+				op = negOp(op)
+			}
+			l, rr := fieldIdx(b.X), fieldIdx(b.Y)
+			if l < 0 || rr < 0 {
+				continue
+			}
+			switch op {
+			case token.GEQ: // pos >= size
+			case token.LEQ: // size <= pos
+				l, rr = rr, l
+			case token.LSS: // pos < size: not exhausted
+				if (pos >= 0 && (pos != l || size != rr)) || more == false {
+					okShape = false
+				}
+				pos, size = l, rr
+				continue
+			case token.GTR:
+				l, rr = rr, l
+				if (pos >= 0 && (pos != l || size != rr)) || more == false {
+					okShape = false
+				}
+				pos, size = l, rr
+				continue
+			default:
+				continue
+			}
+			if pos >= 0 && (pos != l || size != rr) {
+				okShape = false
+			}
+			pos, size = l, rr
+			exhausted = true
+		}
+		if !more && !exhausted {
+			okShape = false // reports the end without knowing pos >= size
+		}
+		if more && exhausted {
+			okShape = false
+		}
+	}
+	if !okShape || pos < 0 || size < 0 || pos == size {
+		return nil, false
+	}
+	// stores to pos over the package: exactly the increments by one of its own value in g, each on a path that returns true
+	incs := 0
+	for _, st := range e.recordFieldStores(rt, pos) {
+		if c, isK := constInt(st.Val); isK && c == 0 {
+			continue
+		}
+		if st.Parent() != g {
+			return nil, false
+		}
+		add, ok := st.Val.(*ssa.BinOp)
+		if !ok || add.Op != token.ADD || fieldIdx(add.X) != pos {
+			return nil, false
+		}
+		if n, isK := constInt(add.Y); !isK || n != 1 {
+			return nil, false
+		}
+		incs++
+	}
+	if incs != 1 {
+		return nil, false
+	}
+	// the element read: a call (or index) that takes the current pos – before the increment is stored
+	var step ssa.Instruction
+	list := -1
+	instrs(g, func(in ssa.Instruction) {
+		c, ok := in.(*ssa.Call)
+		if !ok || c.Call.StaticCallee() == nil || e.fnRole(c.Call.StaticCallee()) == "" {
+			return
+		}
+		usesPos := false
+		for _, a := range c.Call.Args {
+			if fieldIdx(a) == pos {
+				usesPos = true
+			}
+			if _, isSl := a.Type().Underlying().(*types.Slice); isSl && fieldIdx(a) >= 0 {
+				list = fieldIdx(a)
+			}
+		}
+		if usesPos {
+			step = in
+		}
+	})
+	if step == nil || list < 0 {
+		return nil, false
+	}
+	// size is len(list) wherever the record is built
+	for _, st := range e.recordFieldStores(rt, size) {
+		v := strip(st.Val)
+		for {
+			if cv, ok := v.(*ssa.Convert); ok && isIntType(cv.Type()) && isIntType(cv.X.Type()) {
+				v = cv.X
+				continue
+			}
+			break
+		}
+		c, ok := v.(*ssa.Call)
+		if !ok || staticCalleeName(c) != "builtin.len" {
+			return nil, false
+		}
+		// the list stored into the same record in the same function
+		same := false
+		for _, ls := range e.recordFieldStores(rt, list) {
+			if ls.Parent() == st.Parent() && sameSlice(ls.Val, c.Call.Args[0]) {
+				if fa1, ok1 := ls.Addr.(*ssa.FieldAddr); ok1 {
+					if fa2, ok2 := st.Addr.(*ssa.FieldAddr); ok2 && fa1.X == fa2.X {
+						same = true
+					}
+				}
+			}
+		}
+		if !same {
+			return nil, false
+		}
+	}
+	if len(e.recordFieldStores(rt, size)) == 0 {
+		return nil, false
+	}
+	return step, true
+}
+
+// cursorProgress: the exit condition is the "more" flag of a cursor step function (see cursorStep), directly or carried
+// by the loop.
+func (e *Engine) cursorProgress(v ssa.Value) bool {
+	if v == nil {
+		return false
+	}
+	srcs := []ssa.Value{v}
+	if ph, ok := v.(*ssa.Phi); ok {
+		srcs = phiSources(ph)
+	}
+	if len(srcs) == 0 {
+		return false
+	}
+	for _, s := range srcs {
+		ex, ok := s.(*ssa.Extract)
+		if !ok || ex.Index != 1 {
+			return false
+		}
+		c, ok := ex.Tuple.(*ssa.Call)
+		if !ok {
+			return false
+		}
+		if _, isStep := e.cursorStep(c.Call.StaticCallee()); !isStep {
+			return false
+		}
+	}
+	return true
 }
